@@ -165,7 +165,7 @@ FwdDims(srcs, qq) == (qq.dims \cap DimLike) \cup (qq.dims \cap UNION {Src[s].fwd
 SameSrsList(a, b) == /\ Len(a) = Len(b)
                      /\ \A i \in 1 .. Len(a) : IF CombineChecksCodes THEN a[i] = b[i] ELSE Cls(a[i]) = Cls(b[i])
 SameCov(a, b) == /\ a.on = b.on
-                 /\ a.on => (Cls(a.srs) = Cls(b.srs) /\ a.bbox = b.bbox)
+                 /\ a.on => (Cls(a.srs) = Cls(b.srs) /\ a.bbox = b.bbox /\ a.hole = b.hole)      \* (the same geometry)
 Compatible(u, b, qq) ==
   LET h == u.m[1]  a == Src[h]  c == Src[b] IN
   /\ a.kind = "wms" /\ c.kind = "wms"
